@@ -19,9 +19,13 @@ SEEDS = [
     "start: NAME ':' NEWLINE INDENT { mk(LOCATIONS) } | NAME NEWLINE { mk(LOCATIONS) }\n",
     "start: a a NEWLINE { mk(LOCATIONS) } | a NEWLINE { mk(LOCATIONS) }\na: NAME !'=' { mk(LOCATIONS) } | NAME '=' NUMBER { mk(LOCATIONS) }\n",
     "start: expr NEWLINE { mk(LOCATIONS) }\nexpr: expr '+' NUMBER { mk(LOCATIONS) } | NUMBER { mk(LOCATIONS) }\n",
+    # a lookahead whose operand consumes and then evaluates to a falsy value: the span must not include what it looked at
+    "start: w+ NEWLINE\nw: n=NAME !r { mk(LOCATIONS) }\nr: m=NUMBER { None }\n",
+    # an optional item whose rule fails after a cut: the span must end at the last token really matched
+    "start: n=NAME a=[annot] ';' { mk(LOCATIONS) } | NAME ':' NAME { mk(LOCATIONS) }\nannot: ':' ~ NAME '!'\n",
 ]
 LAYOUT = {T.NEWLINE, T.INDENT, T.DEDENT, T.ENDMARKER}
-EXTRA = ["x 1 2 3\n", "x 1 2\n", "x = 1 y = 2 z = 3\n", "x :\n y\n", "x x\n", "x = 1 x\n", "1 + 2 + 3\n", "x\n", "x 1\n"]
+EXTRA = ["x 1 y\n", "x : y\n", "x : y ! ;\n", "x ;\n", "x 1 2 3\n", "x 1 2\n", "x = 1 y = 2 z = 3\n", "x :\n y\n", "x x\n", "x = 1 x\n", "1 + 2 + 3\n", "x\n", "x 1\n"]
 
 
 def expected_span(tokens, s, e):
